@@ -22,7 +22,18 @@ try:
                           capture_output=True, text=True).stdout.strip()
 except Exception:
     head = ''
+import ast  # noqa
+names = {}
+for m in p.modules.values():
+    ns = set()
+    for st in m.tree.body:
+        for n in ast.walk(st) if isinstance(st, (ast.Assign, ast.AugAssign,
+                                                 ast.AnnAssign)) else []:
+            if isinstance(n, ast.Name) and isinstance(n.ctx, ast.Store):
+                ns.add(n.id)
+    names[m.rel] = sorted(ns)
 with open(anchors.TABLE, 'w') as f:
-    json.dump({'commit': head, 'definitions': tab}, f, indent=0, sort_keys=True)
+    json.dump({'commit': head, 'definitions': tab, 'module_names': names}, f,
+              indent=0, sort_keys=True)
 print('%d definitions in %d modules' % (sum(len(v) for v in tab.values()),
                                          len(tab)))
